@@ -539,6 +539,9 @@ func cmdDeterminism(args []string) {
 			replayed++
 			if r.EvHash != a.EvHash || r.Steps != a.Steps || (a.Viol == nil) != (r.Viol == nil) {
 				fmt.Printf("DIVERGENCE seed=%d run=%d: record vs replay: %016x/%d vs %016x/%d (strategy %s)\n", *seed, run, a.EvHash, a.Steps, r.EvHash, r.Steps, scn.Strat)
+				if os.Getenv("SLIMSIM_DEBUG_SEGS") != "" {
+					fmt.Printf("  recorded segs: %v\n  replayed segs: %v\n", a.Segs, r.Segs)
+				}
 				bad++
 			}
 		}
